@@ -48,6 +48,8 @@ pub struct RawTarget {
 
 #[derive(Debug, Clone)]
 pub struct RawConfig {
+    /// bit i: the i-th target path is written with a trailing slash (in-process only)
+    pub trailing_slash: u16,
     pub sub: Vec<usize>, // indices into ALPHA
     pub targets: Vec<RawTarget>,
     pub perm: Vec<u16>, // declaration order keys
@@ -83,8 +85,10 @@ pub fn raw_config(max_targets: usize, max_uses: usize, max_ignores: usize) -> im
         vec(target, 1..=max_targets),
         vec(any::<u16>(), max_targets),
         proptest::option::of((any::<u16>(), any::<u16>())),
+        prop_oneof![3 => Just(0u16), 1 => any::<u16>()],
     )
-        .prop_map(|(sub, targets, perm, back_edge)| RawConfig {
+        .prop_map(|(sub, targets, perm, back_edge, trailing_slash)| RawConfig {
+            trailing_slash,
             sub,
             targets,
             perm,
@@ -266,6 +270,26 @@ pub fn build_config(raw: &RawConfig, mode: CycleMode) -> ConfigSpec {
             specs[lo].uses.push(e);
         }
     }
+    // some target paths are written with a trailing separator (same directory, same meaning)
+    if raw.trailing_slash != 0 {
+        let mut slashed: Vec<String> = vec![];
+        for (i, t) in specs.iter_mut().enumerate() {
+            if raw.trailing_slash >> (i % 16) & 1 == 1 {
+                slashed.push(t.path.clone());
+                t.path.push('/');
+            }
+        }
+        // known finding F11 (DESIGN.md section 5): a `uses` entry naming such a directory
+        // without the separator produces no edge. Excluded by construction: the entry is
+        // written the way the target is; the golden probe in C10 keeps watching the finding.
+        for t in specs.iter_mut() {
+            for u in t.uses.iter_mut() {
+                if slashed.contains(u) {
+                    u.push('/');
+                }
+            }
+        }
+    }
     // declaration order
     let mut order: Vec<usize> = (0..n).collect();
     order.sort_by_key(|&i| (raw.perm.get(i).copied().unwrap_or(0), i));
@@ -278,6 +302,24 @@ pub fn build_config(raw: &RawConfig, mode: CycleMode) -> ConfigSpec {
 
 /// Raw change choice -> path, relative to a configuration.
 pub fn change_path(cfg: &ConfigSpec, kind: u8, a: u16, b: u16) -> String {
+    // a change provider never reports empty components or a trailing separator
+    let mut p = change_path_raw(cfg, kind, a, b);
+    while p.contains("//") {
+        p = p.replace("//", "/");
+    }
+    while p.ends_with('/') {
+        p.pop();
+    }
+    // a target written `dir/` is a directory: a changed *file* called `dir` cannot coexist with
+    // it, so the bare name stands for a file inside it
+    let slashed = format!("{}/", p);
+    if cfg.targets.iter().any(|t| t.path == slashed) {
+        p = format!("{}f", slashed);
+    }
+    p
+}
+
+fn change_path_raw(cfg: &ConfigSpec, kind: u8, a: u16, b: u16) -> String {
     let n = cfg.targets.len().max(1);
     let t = &cfg.targets[pick(a, n).min(cfg.targets.len().saturating_sub(1))];
     let file = ["f", "fx", "f.txt", "f.txtx", "g/h.rs", "é.md"][pick(b, 6)];
@@ -466,7 +508,9 @@ pub mod decode {
         }
         let perm = (0..max_targets).map(|_| b.u16()).collect();
         let back_edge = if b.u8() & 1 == 1 { Some((b.u16(), b.u16())) } else { None };
+        let trailing_slash = if b.u8() % 4 == 0 { b.u16() } else { 0 };
         RawConfig {
+            trailing_slash,
             sub,
             targets,
             perm,
